@@ -9,6 +9,7 @@ CONSTANTS
   Stride = 1
   FlushOnCreate = TRUE
   MaxCrash = 2
+  MaxFaults = 0
   MaxOps = 4
   OpKinds = {"add", "update", "remove", "flush", "ext"}
   Removable = {}
